@@ -470,6 +470,9 @@ func run(repo, verif string, ids []string, tier, onlyOb string, nowrite, list bo
 				}
 			}
 			refs, _ := filepath.Glob(filepath.Join(verif, "refactors", "*", "patch.diff"))
+			// the single-site halves of the two-site seeded changes: the property holds on each of them
+			halves, _ := filepath.Glob(filepath.Join(verif, "halves", "*", "patch.diff"))
+			refs = append(refs, halves...)
 			sort.Strings(refs)
 			quiet, noisy, skippedR := 0, 0, 0
 			var relevant []string
